@@ -112,6 +112,8 @@ def run(ctx, rep):
                 ik = "%s/cas" % b["key"]
                 if not atomics.receiver_is_count(F, B, t):
                     rep.notes.append("atomic operation on something other than the count field (ignored): %s at %s" % (b["key"], loc))
+                elif atomics.cas_test(t) is not None:
+                    rep.ok("R-ORD", "%s/cas-test" % b["key"], "compare_exchange(%d, %d): a read of the count word that changes nothing (its use as a gate is C03's R-GATE)" % (atomics.cas_test(t), atomics.cas_test(t)), cfg=tag)
                 elif inc is None:
                     rep.bad("R-ORD-4", "%s/%s" % (b["key"], atomics.callee_of(t)), "the count word is changed by a compare-and-swap whose operands are not constants with new > current: only increments of this form are covered by the counting lemma (a decrement must be a Release fetch_sub whose returned value is tested)", loc, tag)
                 else:
